@@ -1,7 +1,7 @@
 #!/usr/bin/env python3
 """Run a property's checks against /repo with one seeded change applied.
 
-usage: seedtest.py <seed-dir> [--tier quick|thorough] [--scratch]
+usage: seedtest.py <seed-dir> [--tier quick|thorough] [--scratch] [--primary-only]
 Default: git -C /repo apply <seed>/patch.diff, run ./check <property>, git -C /repo checkout -- . (as the brief
 prescribes).  --scratch runs against a throw-away copy of /repo instead (IVSX_REPO), which leaves /repo untouched
 while a background run is using it; the copy is removed afterwards."""
@@ -23,6 +23,8 @@ def main():
         tier = sys.argv[sys.argv.index('--tier') + 1]
     meta = json.load(open(os.path.join(seed, 'meta.json')))
     props = [meta['property']] + meta.get('also_check', [])
+    if '--primary-only' in sys.argv:
+        props = props[:1]
     patch = os.path.join(seed, 'patch.diff')
     env = dict(os.environ)
     repo = '/repo'
